@@ -40,7 +40,7 @@ let parse_op tok : op =
   | ["rn"; n; nm] -> Mut (MNodeRename (cn n, cz nm))
   | ["aa"; n; a] -> Mut (MNodeAssignAttr (cn n, cz a))
   | ["ra"; n; a] -> Mut (MNodeRemoveAttr (cn n, cz a))
-  | ["er"; e; sg; cap] -> Mut (MEnumAddRef (cn e, cz sg, (if cap = "-" then None else Some (cz cap))))
+  | ["er"; e; sg; cap; inmsg] -> Mut (MEnumAddRef (cn e, cz sg, (if cap = "-" then None else Some (cz cap)), inmsg = "1"))
   | ["av"; e; v; idx] -> Mut (MEnumAddValue (cn e, cz v, cz idx))
   | ["rv"; e; v] -> Mut (MEnumRemoveValue (cn e, cz v))
   | ["ri"; e; v; idx] -> Mut (MEnumReindex (cn e, cz v, cz idx))
